@@ -42,6 +42,9 @@ pub enum RollerSpec {
     Fixed { pat: PatKind, base: u32, count: u32 },
 }
 
+/// Content of the file placed where a directory is needed (C08 obstacle).
+pub const OBSTACLE_MARK: &[u8] = b"\0verif-obstacle-file\0";
+
 pub struct Names {
     pub root: PathBuf,
     pub root2: Option<PathBuf>,
@@ -115,6 +118,9 @@ impl Names {
                 continue;
             }
             if let Entry::File(b) = v {
+                if b == OBSTACLE_MARK {
+                    continue;
+                }
                 out.insert(k, b);
             }
         }
